@@ -82,6 +82,10 @@ pub struct Sim {
     pub stdin: Option<StdinScript>,
     pub tasks_spawned: u64,
     pub tasks_run: u64,
+    /// yield points of the current command; exceeding the budget ends the command
+    pub yields: u64,
+    pub yield_budget: u64,
+    pub budget_exceeded: bool,
 }
 
 /// scripted stdin: bytes and whether fd 0 is a terminal
@@ -97,7 +101,7 @@ impl Sim {
             tape,
             sched: SchedParams::default(),
             steps: 0,
-            step_budget: 200_000,
+            step_budget: 2_000_000,
             pool: Vec::new(),
             next_task_id: 0,
             now_ns: 0,
@@ -114,6 +118,9 @@ impl Sim {
             stdin: None,
             tasks_spawned: 0,
             tasks_run: 0,
+            yields: 0,
+            yield_budget: 20_000_000,
+            budget_exceeded: false,
         }
     }
     #[inline]
